@@ -542,7 +542,7 @@ def worklist_guarded(prog, b, blocks, pushes):
     """every push_back is dominated (within the iteration) by a successful insert into / membership test of a set"""
     dom = cfg.dominators(b)
     tests = {i for i in blocks if b.term(i)["k"] == "call" and re.search(
-        r"HashSet::<T, S>::(insert|contains)$|BTreeSet::<T>::(insert|contains)$|HashMap::<K, V, S>::contains_key$|"
+        r"HashSet::<[^>]*>::(insert|contains)$|BTreeSet::<T>::(insert|contains)$|HashMap::<[^>]*>::contains_key$|"
         r"FileSet::contains$", Body.callee(b.term(i)) or "")}
     if not tests:
         return False
